@@ -120,6 +120,8 @@ structure St where
   sched : List (List EnvAct) := []
   yields : Nat := 0
   fault : Option Fault := none
+  /-- ghost: an *injected* `WouldBlock` was consumed (the kernel never reports one while connections are queued) -/
+  spuriousWB : Bool := false
 
 def upd {α : Type} (f : Nat → α) (i : Nat) (v : α) : Nat → α := fun j => if j = i then v else f j
 
@@ -204,7 +206,7 @@ def envStep (cfg : Cfg) (s : St) : EnvAct → St × ActRes
       | none => (s, .bad)
       | some c =>
         let crossed := Src.wcDecCrossed W.c cfg.limit
-        let W' : Wk := { W with inflight := W.inflight.filter (fun x => x.1 ≠ c.1), c := W.c - 1, tokp := if crossed then W.tokp + 1 else W.tokp }
+        let W' : Wk := { W with inflight := W.inflight.eraseP (fun x => x.1 == c.1), c := W.c - 1, tokp := if crossed then W.tokp + 1 else W.tokp }
         ({ s with wk := upd s.wk w W', finished := s.finished ++ [c] }, .dec crossed)
     else (s, .bad)
   | .push w =>
@@ -221,7 +223,7 @@ def envStep (cfg : Cfg) (s : St) : EnvAct → St × ActRes
       | none => (s, .bad)
       | some c =>
         let crossed := Src.wcDecCrossed W.c cfg.limit
-        let W' : Wk := { W with inflight := W.inflight.filter (fun x => x.1 ≠ c.1), c := W.c - 1 }
+        let W' : Wk := { W with inflight := W.inflight.eraseP (fun x => x.1 == c.1), c := W.c - 1 }
         let s1 := { s with wk := upd s.wk w W', finished := s.finished ++ [c] }
         (if crossed then pushWq s1 (.workerAvail W.idx) else s1, .dec crossed)
     else (s, .bad)
@@ -273,23 +275,24 @@ def removeNext (s : St) (w : Nat) : St :=
   let hs := (s.handles.set s.next last).dropLast
   setAvail { s with handles := hs, faultedLog := s.faultedLog ++ [idx] } idx false
 
+/-- `next.send(conn)` succeeded: the connection is in the worker's channel, the increment is outstanding -/
+def sendPrim (s : St) (w : Nat) (c : Conn) : St :=
+  { s with wk := upd s.wk w { s.wk w with queue := (s.wk w).queue ++ [c] }, pend := some w, dispatched := s.dispatched ++ [(c, w)] }
+
+/-- `if !next.inc_counter() { self.avail.set_available(idx, false) }` -/
+def incPrim (cfg : Cfg) (s : St) (w idx : Nat) : St :=
+  let s3 := { s with wk := upd s.wk w { s.wk w with c := (s.wk w).c + 1 }, pend := none }
+  if Src.wcIncStill (s.wk w).c cfg.limit = true then s3 else setAvail s3 idx false
+
 /-- `send_connection`: `(state, true)` = `Ok(())`, `(state, false)` = `Err(conn)` -/
 def sendConnection (cfg : Cfg) (s : St) (c : Conn) : St × Bool :=
   if s.fault.isSome then (s, true) else
   match s.handles[s.next]? with
   | none => ({ s with fault := some .panicIndex }, true)
   | some w =>
-    let W := s.wk w
-    if W.alive then
-      -- `next.send(conn)` succeeded
-      let s1 := { s with wk := upd s.wk w { W with queue := W.queue ++ [c] }, pend := some w, dispatched := s.dispatched ++ [(c, w)] }
-      let s2 := yieldPt cfg s1                       -- window W1
-      -- `next.inc_counter()`
-      let W2 := s2.wk w
-      let still := Src.wcIncStill W2.c cfg.limit
-      let s3 := { s2 with wk := upd s2.wk w { W2 with c := W2.c + 1 }, pend := none }
-      let s4 := if still then s3 else setAvail s3 W.idx false
-      (setNext s4, true)
+    if (s.wk w).alive then
+      -- send, window W1 (yield point), inc, set_next
+      (setNext (incPrim cfg (yieldPt cfg (sendPrim s w c)) w (s.wk w).idx), true)
     else
       let s1 := removeNext s w
       if s1.handles.isEmpty then ({ s1 with dropped := s1.dropped ++ [c] }, true)
@@ -332,7 +335,7 @@ def acceptSys (s : St) (l : Nat) : St × AccRes :=
     let s1 := { s with lst := upd s.lst l { L with inject := es } }
     match e with
     | .kind k =>
-      if k == Src.ErrorKind.WouldBlock then (s1, .wouldBlock)
+      if k == Src.ErrorKind.WouldBlock then ({ s1 with spuriousWB := true }, .wouldBlock)
       else if Src.connectionError k then (s1, .connErr) else (s1, .otherErr)
     | .emfile => (s1, .otherErr)
   | [] =>
@@ -452,14 +455,15 @@ def readyListeners (s : St) : List Nat :=
 def clearEdges (s : St) : St :=
   { s with lst := fun l => if l < s.nLst then { s.lst l with edge := false } else s.lst l }
 
+/-- end of an iteration: `return` when `Stop` was processed, otherwise `process_timeout` -/
+def pollFinish (r : St × Bool) : St :=
+  if r.2 then { r.1 with exited := true, sched := [] } else { (processTimeout r.1) with sched := [] }
+
 /-- One iteration of `poll_with` on the batch `order` (the waker event is always present in the
 stepped driver). `sched` is installed first: its chunks run at the yield points, in order. -/
 def poll (cfg : Cfg) (s : St) (order : List Ev) (sched : List (List EnvAct)) : St :=
   if s.exited || s.fault.isSome then s else
-  let s0 := clearEdges { s with sched := sched, yields := 0 }
-  let (s1, exit) := pollEvents cfg s0 order
-  if exit then { s1 with exited := true, sched := [] }
-  else { (processTimeout s1) with sched := [] }
+  pollFinish (pollEvents cfg (clearEdges { s with sched := sched, yields := 0 }) order)
 
 /-- an operation of the stepped system -/
 inductive Op where
